@@ -369,6 +369,59 @@ func (c *fctx) assignSpecial(e *emitter, ind int, st *ast.AssignStmt) bool {
 		}
 		return true
 	}
+	// _, err := io.WriteString(dst, s) on an abstract destination; _, err := fmt.Fprintf(dst, "<literal text and %s only>", strings…)
+	if f, ok := obj.(*types.Func); ok && f.Pkg() != nil && len(st.Lhs) == 2 && ((f.Pkg().Path() == "io" && f.Name() == "WriteString") || (f.Pkg().Path() == "fmt" && f.Name() == "Fprintf")) {
+		if dl, _ := leanTypeOf(c.typeOf(call.Args[0])); dl == "δ" || dl == "η" {
+			var data string
+			if f.Name() == "WriteString" {
+				data = c.expr(call.Args[1])
+			} else {
+				fs, ok := c.fi.Pkg.constString(call.Args[1])
+				if !ok {
+					c.fail(st, "Fprintf with a format that is not a constant")
+				}
+				var parts []string
+				arg := 2
+				for len(fs) > 0 {
+					i := strings.Index(fs, "%")
+					if i < 0 {
+						parts = append(parts, bytesLit(fs))
+						break
+					}
+					if i > 0 {
+						parts = append(parts, bytesLit(fs[:i]))
+					}
+					if i+1 >= len(fs) || fs[i+1] != 's' || arg >= len(call.Args) {
+						c.fail(st, "Fprintf verb other than %%s")
+					}
+					if lt, _ := leanTypeOf(c.typeOf(call.Args[arg])); lt != "(List UInt8)" {
+						c.fail(st, "Fprintf %%s of something that is not a string or a byte slice")
+					}
+					parts = append(parts, c.expr(call.Args[arg]))
+					arg++
+					fs = fs[i+2:]
+				}
+				if arg != len(call.Args) {
+					c.fail(st, "Fprintf argument count")
+				}
+				if len(parts) == 0 {
+					parts = []string{"([] : List UInt8)"}
+				}
+				data = "(" + strings.Join(parts, " ++ ") + ")"
+			}
+			wn := "dst_Write"
+			if dl == "η" {
+				wn = "hash_Write"
+			}
+			c.useAbstractName(wn, "("+wn+" : "+dl+" → (List UInt8) → Go.M (Int × (Option Go.Err) × "+dl+"))")
+			t := c.tmp()
+			e.add(ind, fmt.Sprintf("let %s ← %s %s %s", t, wn, c.expr(call.Args[0]), data))
+			c.assignTo(e, ind, call.Args[0], t+".2.2", false)
+			c.assignTo(e, ind, st.Lhs[0], t+".1", define)
+			c.assignTo(e, ind, st.Lhs[1], t+".2.1", define)
+			return true
+		}
+	}
 	// n, err := base64.StdEncoding.Strict().Decode(view, src): the decoder is abstract; what it wrote (also when it
 	// fails part-way) goes through the view into the array
 	if f, ok := obj.(*types.Func); ok && f.Pkg() != nil && f.Pkg().Path() == "encoding/base64" && f.Name() == "Decode" && len(st.Lhs) == 2 {
